@@ -5,7 +5,7 @@
    A path file re-opened after teardown is truncated -- asserted by the project's own
    tests/test_file_writer.py::test_write_after_disconnect -- so file content is per connection. *)
 From Coq Require Import List NArith Bool.
-From GS Require Import model.Writers proofs.WritersProofs.
+From GS Require Import model.Writers model.Utf8 proofs.WritersProofs proofs.Utf8Proofs.
 Import ListNotations.
 
 (* For every history of add_writer / remove_writer / line-emitting calls / flush / teardown over any
@@ -32,6 +32,35 @@ Theorem C14_teardown : forall ops id w, let c0 := run ops in let c := step c0 Te
      exists w0, lookup id (ws c0) = Some w0 /\ w_disconnects w = S (w_disconnects w0)).
 Proof. exact teardown_spec. Qed.
 Print Assumptions C14_teardown.
+
+(* "as the same UTF-8 bytes", text streams included.  model/Utf8.v: str.encode("utf-8") as [encode],
+   bytes.decode("utf-8") (strict) as [decode]; a caller-owned text stream receives decode(line) and
+   encodes it again ([text_write]).  For every statement -- every list of Unicode scalar values --
+   the text stream ends up holding exactly the bytes the other writers received. *)
+Theorem C14_utf8_roundtrip : forall cs, Forall (fun c => scalar c = true) cs -> decode (encode cs) = Some cs.
+Proof. exact roundtrip. Qed.
+Print Assumptions C14_utf8_roundtrip.
+
+Theorem C14_text_stream_same_bytes : forall cs, Forall (fun c => scalar c = true) cs ->
+  text_write (encode cs) = Some (encode cs).
+Proof. exact text_write_same. Qed.
+
+(* the decoder is strict (no overlong forms, no surrogates, nothing above U+10FFFF, no truncated
+   sequence): whatever it accepts is the encoding of what it returns, so a text stream never alters
+   a line -- it keeps the bytes or the write raises *)
+Theorem C14_utf8_decode_strict : forall bs cs, decode bs = Some cs ->
+  encode cs = bs /\ Forall (fun c => scalar c = true) cs.
+Proof. exact decode_sound. Qed.
+
+Theorem C14_text_stream_identity : forall line out, text_write line = Some out -> out = line.
+Proof. exact text_write_identity. Qed.
+Print Assumptions C14_text_stream_identity.
+
+Example C14_utf8_nonvacuous :
+  encode [0x47; 0xE9; 0x20AC; 0x1F525]%N = [0x47; 0xC3; 0xA9; 0xE2; 0x82; 0xAC; 0xF0; 0x9F; 0x94; 0xA5]%N /\
+  decode [0xC0; 0x80]%N = None /\ decode [0xED; 0xA0; 0x80]%N = None /\ decode [0xF4; 0x90; 0x80; 0x80]%N = None /\
+  decode [0xE2; 0x82]%N = None /\ decode [0xF4; 0x8F; 0xBF; 0xBF]%N = Some [0x10FFFF]%N.
+Proof. vm_compute. repeat split. Qed.
 
 (* non-vacuity: two writers, one added mid-stream, one removed and re-added, a duplicate add *)
 Example C14_nonvacuous :
